@@ -192,3 +192,23 @@ M('C07', 'duplicate-key-accepted', STM + 'protocol/key_registration/register.rs'
 """, '        let _ = is_already_registered;\n', ['duplicate'], 'same key registered twice')
 M('C07', 'leader-saves-unverified', 'mithril-aggregator/src/services/signer_registration/verifier.rs',
   '            .get(&party_id_registered)', '            .get(&signer.party_id)', ['agg_verifier'], 'stake looked up by the claimed id')
+
+# ---------------------------------------------------------------- C10
+PRV = 'mithril-client/src/cardano_database_client/proving.rs'
+M('C10', 'per-name-check-dropped', PRV,
+  """            && files_not_verified.tampered_files.is_empty()
+            && files_not_verified.non_verifiable_files.is_empty()
+""", '', ['tampered'], 'F6 comes back')
+M('C10', 'missing-check-dropped', PRV,
+  """            && missing_immutable_files.is_empty()
+""", '', ['missing'], 'missing files tolerated although not allowed')
+M('C10', 'root-check-ignored', PRV,
+  """            &merkle_tree.compute_root()?,
+        )?;""", """            &merkle_tree.compute_root()?,
+        )
+        .ok();""", ['match_message'], 'digest list not bound to the certificate')
+M('C10', 'proof-unverified', PRV,
+  """            merkle_proof
+                .verify()
+                .map_err(CardanoDatabaseVerificationError::MerkleProofVerification)?;
+""", '', ['MKProof::verify'], 'proof not verified')
